@@ -15,7 +15,7 @@ SPEC = {
             'name': 'sync', 'shims': ['openssl'], 'edits': [REGISTER_CUT, CONTACTS_CUT, KEY_CUT],
             'harness_files': {ACCT: 'harness/account.rs'},
             'harnesses': [
-                {'name': 'dbg_c11_a', 'file': ACCT, 'tiers': ['dbg'], 'timeout': 900, 'unwindset': UW},
+                {'name': 'dbg_c11_b', 'file': ACCT, 'tiers': ['dbg'], 'timeout': 900, 'unwindset': UW},
                 {'name': 'c11_sync_no_url', 'file': ACCT, 'timeout': 1800, 'unwindset': UW, 'bounds': 'no account URL on record; ' + B, 'asserts': A},
                 {'name': 'c11_sync_url_no_binding', 'file': ACCT, 'timeout': 1800, 'unwindset': UW, 'bounds': 'account URL on record, no external binding; ' + B, 'asserts': A},
                 {'name': 'c11_sync_url_binding', 'file': ACCT, 'timeout': 1800, 'unwindset': UW, 'bounds': 'account URL on record, external binding configured; ' + B, 'asserts': A},
